@@ -80,6 +80,10 @@ def body(ck, F, cfg):
             continue
         okk = any(s in on_all for s in hit) and any(any(s in pre for s in hit) for ch, pre in before_ch.items())
         ck.require(okk, "R04.2", f"absorbed:{n}", f"proof field {n} must be absorbed on every accepting verifier path before a later challenge")
+    # R04.4 batch verification is verification too: an altered proof must not be accepted there either (C07's rules by reference)
+    from . import C07
+
+    C07.body(ck, F, cfg)
     # R04.3 decoding is validated
     wire.check_decode(ck, F, "R04.3")
     vis = wire.struct_fields(F, "r1cs::proof::R1CSProof")
@@ -95,7 +99,7 @@ def run(tier):
         "TERM aligns the base list and scalar list of the combined check: every point field must be a base with a non-zero scalar normal form, every scalar field must "
         "occur in some scalar. SCHED: every field except the two final scalars lies on all accepting paths of the verifier schedule before a later challenge. WIRE: decoding "
         "goes through the validated compressed decoder only.",
-        rule_text="R04.1 non-zero scalar per field; R04.2 absorbed before later challenges; R04.3 validated decode, private fields",
+        rule_text="R04.1 non-zero scalar per field; R04.2 absorbed before later challenges; R04.3 validated decode, private fields; R04.4 = C07 rules (batch accepts nothing single verification rejects)",
         not_decided=["exhaustive bit-flip sweep of encodings (needs execution)", "that distinct encodings decode to distinct objects (ark-serialize canonicity, pinned dependency)"],
         assumptions=["ark-serialize deserialize_compressed = Compress::Yes + Validate::Yes (pinned 0.4.2)"],
     )
